@@ -260,7 +260,7 @@ func (c *Ctx) ResidueDiff(rs []*Result) []string {
 // ---------------------------------------------------------------------------
 // orders
 
-var sufRe = regexp.MustCompile(`^([0-9]+(?:\.[0-9]+)?)([kKMGTPEZY]i?)?[bB]?$`)
+var sufRe = regexp.MustCompile(`^([0-9]+(?:\.[0-9]*)?|\.[0-9]+)([kKMGTPEZY]i?)?[bB]?$`)
 var wordRe = regexp.MustCompile(`^[^0-9.]+$`)
 
 func numClass(s string) (class int, val *big.Rat, nan bool, inf int) {
